@@ -123,5 +123,42 @@ pub mod more {
     [sortv, boxed, tovec] fn c17_from_parts_v0() { from_parts_vs_parse::<0>() }
     [sortv, boxed, tovec] fn c17_from_parts_v2() { from_parts_vs_parse::<2>() }
     [sortv, boxed, tovec] fn c17_from_parts_v3() { from_parts_vs_parse::<3>() }
+
+    // Locale without extensions: into_parts gives an empty extension string, which re-parses to the
+    // empty map, and from_parts on the parts gives back an equal locale
+    [string, push, sortt, sortv, boxed, tovec] fn c17_locale_parts_noext() {
+        use unic_locale_impl::extensions::ExtensionsMap;
+        use unic_locale_impl::Locale;
+        let (li, _m) = sym::any_langid(1);
+        let loc = Locale::from(li.clone());
+        let (l, s, r, vs, ext) = loc.into_parts();
+        cover!(vs.len() == 1);
+        assert!(ext.is_empty(), "no extensions: empty extension string");
+        let em = ExtensionsMap::from_bytes(b"");
+        match em {
+            Ok(em) => {
+                assert!(em.is_empty());
+                let back = Locale::from_parts(l, s, r, &vs, Some(em));
+                assert!(back.id == li && back.extensions.is_empty(), "from_parts(into_parts(x)) == x");
+                core::mem::forget(back);
+            }
+            Err(_) => assert!(false, "the empty extension string re-parses"),
+        }
+        core::mem::forget((li, vs, ext));
+    }
+    // the extension string of a locale with one attribute and one private tag begins with the
+    // separator ExtensionsMap::from_bytes tolerates: "-u-attr-x-tag" splits into an empty first subtag
+    [push, sortt, sortv, boxed] fn c17_extmap_leading_sep() {
+        use unic_locale_impl::extensions::ExtensionsMap;
+        let em = ExtensionsMap::from_bytes(b"-u-attr");
+        match &em {
+            Ok(m) => {
+                assert!(m.unicode.has_attribute("attr") == Ok(true) && m.transform.is_empty() && m.private.is_empty(), "the leading separator of the map's own Display output is tolerated");
+            }
+            Err(_) => assert!(false, "ExtensionsMap cannot re-read its own Display output"),
+        }
+        cover!(em.is_ok());
+        core::mem::forget(em);
+    }
     }
 }
